@@ -41,7 +41,7 @@ def run(prop, tier, seed, out):
             f_bad += [(f, ex.submit(model, scr, f, "none", "none", "leaktl", "none", False, True)) for f in FAMILIES if f[0] == "t1"]
             outp = scr.path("locks.json")
             t0 = time.time()
-            p = run_vh(vh, ["locks-run", "-out", outp, "-reps", "1" if quick else "5"], timeout=1500)
+            p = run_vh(vh, ["locks-run", "-out", outp, "-reps", "1" if quick else "30"], timeout=1500)
             if p.returncode != 0:
                 if "panic" in p.stderr or "fatal error" in p.stderr:
                     out.violation("harness died running broker calls with re-entrant nodes: " + p.stderr[:300], {"stderr": p.stderr[-3000:]})
